@@ -768,6 +768,13 @@ class Executor(Evaluator):
                 continue
             out.append((s_alt, res))
         self.used_contracts.add(con.qualname)
+        sa = getattr(self.cur_contract, "extra", {}).get("snap_after", {}) if self.cur_contract else {}
+        if node is not None and isinstance(node.func, ast.Name) and node.func.id in sa and self.module is self.fi.module:
+            # ghost snapshots of arrays right after this call (a name for the mid-iteration state in later hints / clauses)
+            for gname, gexpr in sa[node.func.id].items():
+                for s_alt, res in out:
+                    v = self.eval_spec(gexpr, s_alt, {})
+                    s_alt.env[gname] = self.snapshot(s_alt, v) if isinstance(v, Arr) else v
         go = getattr(self.cur_contract, "extra", {}).get("ghost_out", {}) if self.cur_contract else {}
         if node is not None and isinstance(node.func, ast.Name) and node.func.id in go and self.module is self.fi.module:
             # final value of a ghost variable of the callee (existentially chosen there), bound to a ghost variable of the caller
@@ -816,6 +823,12 @@ class Executor(Evaluator):
             return self.eval(node, s)
         finally:
             self.line = saved
+
+    def snapshot(self, s, v):
+        ae = self.to_aexpr(s, v)
+        if v.is_whole():
+            ae.term = s.heap[v.obj.id]
+        return ae
 
     def spec_call(self, name, node, st):
         a = node.args
@@ -866,7 +879,7 @@ class Executor(Evaluator):
             s.env["__bound__"] = st.env.get("__bound__", ())
             s.ghost_env = st.ghost_env
             v = self.eval(a[0], s)
-            return self.to_aexpr(s, v) if isinstance(v, Arr) else v
+            return self.snapshot(s, v) if isinstance(v, Arr) else v
         if name in ("pre", "it0"):
             stack = [x for x in st.pre_stack if isinstance(x, tuple)] if name == "it0" else [x for x in st.pre_stack if not isinstance(x, tuple)]
             if not stack:
@@ -878,7 +891,7 @@ class Executor(Evaluator):
             s.env["__bound__"] = st.env.get("__bound__", ())
             s.ghost_env = st.ghost_env
             v = self.eval(a[0], s)
-            return self.to_aexpr(s, v) if isinstance(v, Arr) else v
+            return self.snapshot(s, v) if isinstance(v, Arr) else v
         if name in ("sum", "count"):
             return self.spec_sum(name, node, st)
         if name == "same":
